@@ -13,9 +13,54 @@ use crate::rng::{Fnv, Rng};
 /// ECONNRESET, ETIMEDOUT, EAGAIN.
 pub const OS_CODES: [i32; 7] = [5, 28, 13, 32, 104, 110, 11];
 
-/// Fault selector 0..14 -> (kind, raw OS code).
+/// Negative "OS codes" select an error whose payload is one of the library's OWN error types (a
+/// source that is itself built on a flussab parser and passes its error on inside an `io::Error`):
+/// -1 flussab-cnf, -2 flussab-aiger, -3 flussab-btor2 parse error (a syntax error), -4 a plain
+/// `flussab::text::SyntaxError`.
+pub const LIB_PAYLOADS: [i32; 4] = [-1, -2, -3, -4];
+/// Number of fault selectors understood by `fault_error` (7 kinds + 7 OS codes + 4 library payloads).
+pub const FAULT_SELECTORS: usize = 18;
+
+fn lib_syntax_error() -> flussab::text::SyntaxError {
+    flussab::text::SyntaxError {
+        location: flussab::text::LineColumn { line: 4, column: 7 },
+        msg: "expected literal or terminating zero, found \"x\" (error of an upstream parser)".into(),
+    }
+}
+
+/// The error a source fails with for a (possibly negative) code.
+pub fn os_or_lib_error(code: i32) -> io::Error {
+    match code {
+        -1 => io::Error::new(ErrorKind::InvalidData, *flussab_cnf::ParseError::from(lib_syntax_error())),
+        -2 => io::Error::new(ErrorKind::InvalidData, *flussab_aiger::ParseError::from(lib_syntax_error())),
+        -3 => io::Error::new(ErrorKind::InvalidData, *flussab_btor2::ParseError::from(lib_syntax_error())),
+        -4 => io::Error::new(ErrorKind::InvalidData, lib_syntax_error()),
+        c => io::Error::from_raw_os_error(c),
+    }
+}
+
+/// Which library payload an error (still) carries: the code of `LIB_PAYLOADS`.
+pub fn lib_payload_of(e: &io::Error) -> Option<i32> {
+    let r = e.get_ref()?;
+    if r.downcast_ref::<flussab_cnf::InnerParseError>().is_some() {
+        Some(-1)
+    } else if r.downcast_ref::<flussab_aiger::InnerParseError>().is_some() {
+        Some(-2)
+    } else if r.downcast_ref::<flussab_btor2::InnerParseError>().is_some() {
+        Some(-3)
+    } else if r.downcast_ref::<flussab::text::SyntaxError>().is_some() {
+        Some(-4)
+    } else {
+        None
+    }
+}
+
+/// Fault selector -> (kind, raw OS code or library payload code).
 pub fn fault_error(idx: usize) -> (ErrorKind, Option<i32>) {
-    let idx = idx % (ERR_KINDS.len() + OS_CODES.len());
+    let idx = idx % FAULT_SELECTORS;
+    if idx >= ERR_KINDS.len() + OS_CODES.len() {
+        return (ErrorKind::InvalidData, Some(LIB_PAYLOADS[idx - ERR_KINDS.len() - OS_CODES.len()]));
+    }
     if idx < ERR_KINDS.len() {
         (ERR_KINDS[idx], None)
     } else {
@@ -207,7 +252,7 @@ pub struct SrcState {
 impl SrcState {
     pub fn fail_msg(&self) -> String {
         match (self.cfg.fail_at, self.cfg.fail_os) {
-            (Some(_), Some(code)) => io::Error::from_raw_os_error(code).to_string(),
+            (Some(_), Some(code)) => os_or_lib_error(code).to_string(),
             (Some((k, _)), None) => format!("simulated source failure at offset {k}"),
             _ => String::new(),
         }
@@ -365,7 +410,7 @@ impl Read for SimSource {
                                 st.c.errors += 1;
                                 res = CallRes::Err;
                                 ret = Err(match st.cfg.fail_os {
-                                    Some(code) => io::Error::from_raw_os_error(code),
+                                    Some(code) => os_or_lib_error(code),
                                     None => io::Error::new(kind, SimFailure { offset: k }),
                                 });
                             }
@@ -612,7 +657,7 @@ impl SourceCfg {
             if let Some(code) = kind.strip_prefix("os") {
                 let code: i32 = code.parse().ok()?;
                 fail_os = Some(code);
-                Some((k.parse().ok()?, io::Error::from_raw_os_error(code).kind()))
+                Some((k.parse().ok()?, os_or_lib_error(code).kind()))
             } else {
                 Some((k.parse().ok()?, kind_from_name(kind)?))
             }
